@@ -7,7 +7,7 @@ from lapy import TriaMesh, TetMesh, Solver
 DT = {"f64": np.float64, "f32": np.float32}
 IT = {"i64": np.int64, "i32": np.int32}
 TOL = {"f64": 1e-9, "f32": 2e-4}
-SCALES = [1.0, 1.0, 2e-4, 1.0, 37.0]
+SCALES = [1.0, 3e-5, 2e-4, 1.0, 37.0]
 
 
 def case_dict(kind, v, t, **kw):
@@ -16,10 +16,14 @@ def case_dict(kind, v, t, **kw):
     return d
 
 
-def impl_fem(kind, v, t, lump, dt="f64", it="i64", aniso=None, aniso_smooth=2):
+def impl_fem(kind, v, t, lump, dt="f64", it="i64", aniso=None, aniso_smooth=2, pres=None):
     cls = TriaMesh if kind == "tri" else TetMesh
     with core.quiet():
-        m = cls(np.asarray(v, dtype=DT[dt]), np.asarray(t, dtype=IT[it]))
+        if pres and pres != "plain":
+            pv, pt = gen.present(v, t, pres)
+            m = cls(pv.astype(DT[dt]), pt if pres == "t-int32" else pt.astype(IT[it], copy=False))
+        else:
+            m = cls(np.asarray(v, dtype=DT[dt]), np.asarray(t, dtype=IT[it]))
         if aniso is None:
             s = Solver(m, lump=lump)
         else:
@@ -38,11 +42,11 @@ def model_fem(drv, kind, v, t, lump):
     return a, b, None
 
 
-def compare_fem(drv, kind, v, t, lump, dt="f64", it="i64"):
+def compare_fem(drv, kind, v, t, lump, dt="f64", it="i64", pres=None):
     """returns (error string or None)"""
     v = np.asarray(v, dtype=DT[dt]).astype(np.float64)
     try:
-        m, s = impl_fem(kind, v, t, lump, dt, it)
+        m, s = impl_fem(kind, v, t, lump, dt, it, pres=pres)
     except Exception as e:  # noqa: BLE001
         return "implementation raised %s: %s" % (type(e).__name__, str(e)[:100])
     a, b, err = model_fem(drv, kind, v, t, lump)
@@ -74,20 +78,31 @@ def cur_wire(cur):
     return " ".join("%s %s %s %s" % (wire.rawfloats(u1[k]), wire.rawfloats(u2[k]), wire.fhex(c1[k]), wire.fhex(c2[k])) for k in range(len(c1)))
 
 
-def compare_fem_aniso(drv, v, t, lump, aniso, aniso_smooth):
-    """Solver(tria, lump, aniso) vs the model's `solverAniso` fed with the curvature_tria output the implementation used"""
+def compare_fem_aniso(drv, v, t, lump, aniso, aniso_smooth, reuse=False):
+    """Solver(tria, lump, aniso) vs the model's `solverAniso` fed with the curvature_tria output the implementation used.
+    With `reuse` the Solver is built a second time on the SAME mesh object after its vertices were moved in place
+    (smooth_): the second operator must be the model's function of the current vertices."""
     from . import capture
     v = np.asarray(v, dtype=np.float64)
     try:
-        with capture.capture() as calls:
-            m, s = impl_fem("tri", v, t, lump, aniso=aniso, aniso_smooth=aniso_smooth)
+        with core.quiet():
+            m = TriaMesh(v, np.asarray(t, dtype=np.int64))
+            if reuse:
+                Solver(m, lump=lump, aniso=aniso, aniso_smooth=aniso_smooth)
+                m.smooth_(1)
+                v = np.array(m.v, dtype=np.float64)
+            with capture.capture() as calls:
+                s = Solver(m, lump=lump, aniso=aniso, aniso_smooth=aniso_smooth)
+            cur_now = m.curvature_tria(smoothit=aniso_smooth)
     except Exception as e:  # noqa: BLE001
         return "implementation raised %s: %s" % (type(e).__name__, str(e)[:100])
-    if len(calls.curv_tria) != 1:
+    if len(calls.curv_tria) > 1:
         return "%d curvature_tria calls" % len(calls.curv_tria)
+    # the curvature input of the model is what curvature_tria returns for the mesh as it is NOW
+    cur = cur_now
     a0, a1 = (aniso if isinstance(aniso, (tuple, list)) else (aniso, aniso))
     r = wire.Reply(drv.ask("solver_aniso %d %s %s %s %s %s" % (int(lump), wire.verts(v), wire.elems(t), wire.fhex(float(a0)), wire.fhex(float(a1)),
-                                                           cur_wire(calls.curv_tria[0]))))
+                                                           cur_wire(cur))))
     if r.status != "ok":
         return "driver: " + r.raw[:200]
     n = len(v)
@@ -97,7 +112,7 @@ def compare_fem_aniso(drv, v, t, lump, aniso, aniso_smooth):
         return "shape %s/%s vs %s" % (ia.shape, ib.shape, a.shape)
     ea = core.sparse_relerr(ia.astype(np.float64), a); eb = core.sparse_relerr(ib.astype(np.float64), b)
     if not (ea <= 2e-4 and eb <= 2e-4):          # LaPy stores the anisotropic matrices as float32
-        return "aniso stiffness rel.err %.3g, mass rel.err %.3g" % (ea, eb)
+        return "aniso stiffness rel.err %.3g, mass rel.err %.3g%s" % (ea, eb, " (second Solver on the same, moved mesh object)" if reuse else "")
     if (ib != 0).nnz != (b != 0).nnz:
         return "mass sparsity pattern differs (lump=%s): %d vs %d stored entries" % (lump, (ib != 0).nnz, (b != 0).nnz)
     return None
@@ -130,13 +145,13 @@ def run_stream(drv, stats, seed, n_tri, n_tet, size, failures, name="fem corresp
             k += 1
             sc = SCALES[(k // 2) % len(SCALES)] if dt == "f64" else 1.0        # small / large meshes: the guards are absolute
             c = dict(c, v=c["v"] * sc, tags=set(c["tags"]) | ({"scale:%g" % sc} if sc != 1.0 else set()))
-            err = compare_fem(drv, "tri", c["v"], c["t"], lump, dt, it)
+            err = compare_fem(drv, "tri", c["v"], c["t"], lump, dt, it, pres=c.get("pres"))
             stats.case(core.mesh_key(c["v"], c["t"], lump, dt), sample=dict(kind="tri", name=c["name"], nv=len(c["v"]),
                        nt=len(c["t"]), lump=lump, dtype=dt) if k < 3 else None,
                        cls=["tri:" + c["name"], "dtype:" + dt, "lump:%s" % lump] + ["mod:" + x for x in c["tags"] if x != c["name"]])
             if err:
                 failures.append(core.Failure("correspondence", name, "tri %s lump=%s %s: %s" % (c["name"], lump, dt, err),
-                                             case_dict("tri", c["v"], c["t"], lump=lump, dt=dt, name=c["name"])))
+                                             case_dict("tri", c["v"], c["t"], lump=lump, dt=dt, name=c["name"], pres=c.get("pres"))))
                 if len(failures) > 5:
                     return
     for c in gen.tet_stream(seed, n_tet, size):
